@@ -1,3 +1,4 @@
+import Rtsp.Generated.Facts.Hdr
 /-
 Shared vocabulary of the RTSP header models (pkg/headers/*.go): strings, results, and the Go
 standard-library functions the header codecs call, each modelled on exactly the inputs the codecs
@@ -10,6 +11,7 @@ converts hex bytes to and from this view, so key literals can be written as ordi
 them (a superset of the byte strings).
 -/
 namespace Rtsp.Hdr
+open Rtsp.Facts
 
 abbrev Str := List Char
 
@@ -100,6 +102,11 @@ def joinWith (sep : Char) : List Str → Str
   | [] => []
   | [p] => p
   | p :: q :: ps => p ++ sep :: joinWith sep (q :: ps)
+
+/-- an optional `name=value` element of a marshalled list -/
+def optField (name : Str) : Option Str → List Str
+  | some v => [name ++ v]
+  | none => []
 
 /-! ### numbers -/
 
